@@ -799,6 +799,17 @@ package analysis
 //@ func withVisitedRef(visited, ref)
 //@   modifies nothing
 //@   ensures len(result) == len(visited) + 1 && result[len(visited)] == ref && (forall i in 0..len(visited) :: result[i] == visited[i])
+// expandSchema (recover, outside the subset): the dependency's expander, a panic of which is turned into an error;
+// same trusted contract as the extern spec.ExpandSchema in each aspect
+//@ func expandSchema(sch, root)
+//@   assumed
+//@   modifies *sch
+//@ func expandSchema(sch, root)
+//@   aspect safe
+//@   assumed
+//@   modifies *sch, ghost failed
+//@   ensures failed == (old(failed) || result != nil)
+
 //@ func (a *AnalyzedSchema) inferFromRef()
 //@   inline
 //@   callsite Schema: !inStrs(a.visitedRefs, a.schema.Ref.String()) && inStrs(callee_opts.visitedRefs, a.schema.Ref.String()) && (forall i in 0..len(a.visitedRefs) :: inStrs(callee_opts.visitedRefs, a.visitedRefs[i]))
